@@ -43,8 +43,8 @@ fn windows_allocator(repo: &str, out: &str) {
 ///   `libc::` -> `libc_shim::`;  the one `asm!("dsb sy", "isb", ..)` statement -> `barrier();`;
 ///   the `#![cfg(...)]` file attributes are dropped.
 fn platform_variants(repo: &str, out: &str) {
-    let files = ["common.rs", "patch_arm64.rs", "arm64_codegenerator.rs", "utils.rs", "patch_amd64.rs", "patch_trait.rs"];
-    for (variant, os, arch) in [("plat_macos_a64", "macos", "aarch64"), ("plat_macos_x64", "macos", "x86_64"), ("plat_windows_x64", "windows", "x86_64"),
+    let files = ["common.rs", "patch_arm64.rs", "arm64_codegenerator.rs", "utils.rs", "patch_amd64.rs", "patch_arm.rs", "patch_trait.rs"];
+    for (variant, os, arch) in [("plat_linux_arm", "linux", "arm"), ("plat_macos_a64", "macos", "aarch64"), ("plat_macos_x64", "macos", "x86_64"), ("plat_windows_x64", "windows", "x86_64"),
                                 ("plat_windows_a64", "windows", "aarch64"), ("plat_linux_a64", "linux", "aarch64"), ("plat_linux_x64", "linux", "x86_64")] {
         let dir = Path::new(out).join(variant);
         fs::create_dir_all(&dir).unwrap();
